@@ -741,6 +741,19 @@ func mkIBin(op Op, a, b *Term) *Term {
 		if b.op == OConst && b.z.Sign() == 0 {
 			return a
 		}
+		if a == b {
+			return mkInt64(0)
+		}
+		// x - (x - r) = r ; (x - r) - x = -r
+		if b.op == OISub && b.args[0] == a {
+			return b.args[1]
+		}
+		if b.op == OIAdd && b.args[0] == a {
+			return mkINeg(b.args[1])
+		}
+		if b.op == OIAdd && b.args[1] == a {
+			return mkINeg(b.args[0])
+		}
 	case OIMul:
 		if a.op == OConst && a.z.Cmp(big.NewInt(1)) == 0 {
 			return b
